@@ -4,6 +4,7 @@ open Bpmn.Props.C19
 #print axioms C19_holds_partial
 #print axioms C19_counterexample_activity_not_stored
 #print axioms process_wellformed
+#print axioms sequential_ids_unique
 #print axioms activity_not_stored_dangling
 #print axioms duplicate_generated_id_witness
 #print axioms waypoints_on_borders
